@@ -153,7 +153,8 @@ def generate(rng, tier, idx):
             ops.append({'op': 'set_random_state', 'm': m,
                         'seed': zoo.rand_seedspec(rng, allow_none=True)})
         elif r < 0.72:
-            ops.append({'op': 'app_draw', 'k': rng.randint(1, 700)})
+            ops.append({'op': 'app_draw', 'k': rng.randint(1, 700),
+                        'how': rng.choice(['random', 'random', 'normal', 'randint'])})
         elif r < 0.78:
             ops.append({'op': 'app_reseed', 's': rng.randrange(2**31)})
         elif r < 0.83:
@@ -545,7 +546,16 @@ def execute(run):
             _abstract(w, mid, 'set_random_state', outcome_class(o1))
         elif kind == 'app_draw':
             w.snapshots.append(np.random.get_state())
-            v = np.random.random(op['k'])
+            how = op.get('how', 'random')
+            if how == 'normal':
+                # an odd number of legacy normals leaves a cached Gaussian in the state
+                v = np.random.normal(size=op['k'])
+                if np.random.get_state()[3]:
+                    ctx.probes['global_state_holds_cached_gaussian'] += 1
+            elif how == 'randint':
+                v = np.random.randint(0, 1000, size=op['k'])
+            else:
+                v = np.random.random(op['k'])
             ctx.stats['ops'] += 1
             ctx.faults['F5_foreign_draws'] += 1
             ctx.event('app_draw', op['k'], v)
